@@ -1,8 +1,6 @@
 import PsecModel.Model.Des
 import PsecModel.Lemmas.Cbc
 import PsecModel.Lemmas.RefLawful
-import PsecModel.Cipher.VectorsAes
-import PsecModel.Cipher.VectorsDes
 /-!
 # C19 — TDES/AES ECB and CBC wrappers are exact, length-preserving inverses
 
@@ -227,7 +225,8 @@ theorem kcv_spec (c : Ciphers) (key : Bytes) (n : Nat) :
     · rw [Nat.min_eq_right h, List.take_of_length_le (Nat.le_refl _), List.take_of_length_le h]
   · simp [hk]
 
-/-! ## non-vacuity: a lawful cipher exists (the identity), and the reference ciphers meet the vectors -/
+/-! ## non-vacuity: a lawful cipher exists (the identity); the reference ciphers meet the published vectors in `Cipher/VectorsAes.lean`,
+`Cipher/VectorsDes.lean` (kernel-evaluated tests, built by `PsecModel.Tests` in the thorough tier) -/
 example : (⟨fun _ b => b, fun _ b => b, fun _ b => b, fun _ b => b⟩ : Ciphers).Lawful :=
   ⟨fun _ _ _ _ => rfl, fun _ _ _ _ => rfl, fun _ _ _ h => h, fun _ _ _ h => h,
    fun _ _ _ _ => rfl, fun _ _ _ _ => rfl, fun _ _ _ h => h, fun _ _ _ h => h⟩
